@@ -20,6 +20,9 @@
    generic-name mangling in register_impl_definition (struct names are plain identifiers here);
    selective imports `import m { a, b }` and aliases.
 
+   The model mirrors /repo after the fix: commits e75028a (path form), 7f2ae2b (a module's own imports
+   are executed, module marked loaded first), 871ed77 (array members kept), a650333 (impl statics).
+
    Definitions only; total, computable, extractable.  No proofs in this file. *)
 From Coq Require Import List String Ascii Bool Arith.
 Import ListNotations.
@@ -78,8 +81,13 @@ Definition dot_to_slash (c : ascii) : ascii := if Ascii.eqb c "."%char then "/"%
 Fixpoint map_str (f : ascii -> ascii) (s : string) : string :=
   match s with EmptyString => EmptyString | String c r => String (f c) (map_str f r) end.
 
+Fixpoint ends_with (suffix s : string) : bool :=     (* s.compare(s.size() - |suffix|, |suffix|, suffix) == 0 *)
+  if String.eqb s suffix then true
+  else match s with EmptyString => false | String _ r => ends_with suffix r end.
+
 Definition file_path_of (module_path : name) : name :=
-  if contains ".cb" module_path then module_path
+  if Nat.ltb 3 (String.length module_path) && ends_with ".cb" module_path && contains "/" module_path
+  then module_path                                   (* a real file path such as ../utils/helper.cb *)
   else if contains "." module_path && negb (contains "/" module_path) && negb (contains ".." module_path)
        then map_str dot_to_slash module_path +++ ".cb"
        else module_path +++ ".cb".
@@ -115,7 +123,8 @@ Definition empty_tables : tables := mkT [] [] [] [] [] [] [] [] [] [] [].
 
 Inductive error :=
 | EOpen (module_path file_path : name)               (* "Failed to open module file: p (searched: fp)" *)
-| EConflict (method sname : name).                   (* "Method name conflict: method 'm' ... for type 's'" *)
+| EConflict (method sname : name)                    (* "Method name conflict: method 'm' ... for type 's'" *)
+| EDepth (module_path : name).                       (* model only: recursion bound of [handle_import] exhausted *)
 Inductive result := Ok (t : tables) | Err (e : error).
 
 (* primitive table updates; every registration below is a list of these *)
@@ -197,24 +206,23 @@ Fixpoint run_ops (ops : list op) (t : tables) : result :=
   | o :: r => match apply_op t o with Ok t' => run_ops r t' | Err e => Err e end
   end.
 
-(* ----- sync_impl_definitions_from_parser, per impl block: constructors / destructor into the struct_*
-   tables, then register_impl_definition.  impl_static_variables are NOT created on this path. *)
+(* ----- sync_impl_definitions_from_parser, per impl block: impl static variables (a650333), constructors /
+   destructor into the struct_* tables, then register_impl_definition. *)
 Definition sync_ops (d : impl_def) : list op :=
-  map (fun c => OCtor (im_struct d) (fst c) (snd c)) (im_ctors d)
+  map (fun v => OStatic (im_iface d) (im_struct d) v) (im_statics d)
+  ++ map (fun c => OCtor (im_struct d) (fst c) (snd c)) (im_ctors d)
   ++ (match im_dtor d with Some b => [ODtor (im_struct d) b] | None => [] end)
   ++ [OImpl d].
 
-(* ----- handle_impl_declaration (an impl block written in the file being run): static variables first,
-   then the same registrations (its extra functions["S::m"] = node store is repeated verbatim by
-   register_impl_definition and is left out). *)
-Definition local_impl_ops (d : impl_def) : list op :=
-  map (fun v => OStatic (im_iface d) (im_struct d) v) (im_statics d) ++ sync_ops d.
+(* ----- handle_impl_declaration (an impl block written in the file being run): the same registrations
+   (its extra functions["S::m"] = node store is repeated verbatim by register_impl_definition and is
+   left out). *)
+Definition local_impl_ops (d : impl_def) : list op := sync_ops d.
 
 (* ----- the switch over exported statements of handle_import_statement *)
 Definition qualified (module_path n : name) : name := module_path +++ "." +++ n.
-(* StructDefinition built with add_member only: array_type_info of array members is dropped *)
-Definition strip_member (m : member) : member := mkMember (mem_name m) None.
-Definition import_sdef (d : sdef) : sdef := mkSdef (sd_generic d) (map strip_member (sd_members d)).
+(* StructDefinition rebuilt member by member; array members keep their array_type_info (871ed77) *)
+Definition import_sdef (d : sdef) : sdef := d.
 
 Definition import_decl_ops (module_path : name) (d : decl) : list op :=
   match d with
@@ -233,7 +241,7 @@ Definition import_decl_ops (module_path : name) (d : decl) : list op :=
   end.
 Definition import_stmt_ops (module_path : name) (s : stmt) : list op :=
   match s with
-  | SImport _ => []                                  (* !stmt->is_exported: skipped, never executed *)
+  | SImport _ => []                                  (* executed by [run_stmts], registers nothing itself *)
   | SDecl false _ => []
   | SDecl true d => import_decl_ops module_path d
   end.
@@ -254,27 +262,53 @@ Fixpoint parser_impls (fuel : nat) (fs : fsys) (m : module) : list impl_def :=
                      | _ => []
                      end) m.
 
-Definition module_ops (fuel : nat) (fs : fsys) (module_path : name) (m : module) : list op :=
-  flat_map (import_stmt_ops module_path) m
-  ++ flat_map sync_ops (parser_impls fuel fs m)
-  ++ [OLoaded module_path].
+Definition mark_loaded (p : name) (t : tables) : tables :=
+  mkT (funcs t) (structs t) (ifaces t) (typedefs t) (vars t) (enums t) (impls t) (ctors t) (dtors t) (istatics t) (p :: loaded t).
 
-(* everything one not-yet-loaded `import module_path;` does *)
-Definition path_ops (fuel : nat) (fs : fsys) (module_path : name) : list op :=
-  match resolve fs module_path with
-  | None => [OFail (EOpen module_path (file_path_of module_path))]
-  | Some m => module_ops fuel fs module_path m
+(* the loop over the module's statements; [imp] = the loader itself, one level down *)
+Fixpoint run_stmts (imp : tables -> name -> result) (module_path : name) (l : module) (t : tables) : result :=
+  match l with
+  | [] => Ok t
+  | SImport q :: r =>                                (* 7f2ae2b: a module's own imports are loaded with it *)
+      match imp t q with Ok t' => run_stmts imp module_path r t' | Err e => Err e end
+  | SDecl e d :: r =>
+      match run_ops (import_stmt_ops module_path (SDecl e d)) t with
+      | Ok t' => run_stmts imp module_path r t'
+      | Err e => Err e
+      end
   end.
 
-Definition handle_import (fuel : nat) (fs : fsys) (t : tables) (module_path : name) : result :=
+(* [fuel] bounds the nesting of imports (every level marks a new module as loaded, so the real
+   recursion is bounded by the number of module paths); [pf] is the depth bound of [parser_impls] *)
+Fixpoint handle_import (fuel pf : nat) (fs : fsys) (t : tables) (module_path : name) {struct fuel} : result :=
   if mem module_path (loaded t) then Ok t              (* loaded_modules.find(...) != end(): return *)
-  else run_ops (path_ops fuel fs module_path) t.
+  else match fuel with
+       | 0 => Err (EDepth module_path)
+       | S f =>
+         match resolve fs module_path with
+         | None => Err (EOpen module_path (file_path_of module_path))
+         | Some m =>
+           (* loaded_modules.insert first: a module reached again through its own imports is not re-entered *)
+           match run_stmts (handle_import f pf fs) module_path m (mark_loaded module_path t) with
+           | Ok t2 => run_ops (flat_map sync_ops (parser_impls pf fs m)) t2
+           | Err e => Err e
+           end
+         end
+       end.
 
 (* a sequence of import statements, e.g. the imports at the top of the file being run *)
-Fixpoint load (fuel : nat) (fs : fsys) (paths : list name) (t : tables) : result :=
+Fixpoint load (fuel pf : nat) (fs : fsys) (paths : list name) (t : tables) : result :=
   match paths with
   | [] => Ok t
-  | p :: r => match handle_import fuel fs t p with Ok t' => load fuel fs r t' | Err e => Err e end
+  | p :: r => match handle_import fuel pf fs t p with Ok t' => load fuel pf fs r t' | Err e => Err e end
+  end.
+
+(* everything the loading of ONE module registers itself (nested imports excluded) *)
+Definition block (pf : nat) (fs : fsys) (module_path : name) : list op :=
+  match resolve fs module_path with
+  | None => [OFail (EOpen module_path (file_path_of module_path))]
+  | Some m => OLoaded module_path :: flat_map (import_stmt_ops module_path) m
+              ++ flat_map sync_ops (parser_impls pf fs m)
   end.
 
 (* ----- registration of a declaration written in the file being run (register_global_declarations) *)
@@ -312,8 +346,8 @@ Definition local_ops (m : module) : list op :=
   flat_map (fun k => flat_map local_decl_ops (filter (pass k) (decls_of m))) [0; 1; 2; 3; 4; 5; 6; 7].
 
 (* the whole start-up of a program file: all imports first, then its own declarations *)
-Definition start_program (fuel : nat) (fs : fsys) (prog : module) : result :=
-  match load fuel fs (imports_of prog) empty_tables with
+Definition start_program (fuel pf : nat) (fs : fsys) (prog : module) : result :=
+  match load fuel pf fs (imports_of prog) empty_tables with
   | Ok t => run_ops (local_ops prog) t
   | Err e => Err e
   end.
@@ -330,8 +364,35 @@ Definition ctors_of (s : name) (l : list (name * (nat * nat))) : list (name * (n
   filter (fun c => String.eqb (fst c) s) l.
 Definition method_key (s m : name) : name := s +++ "::" +++ m.
 
-(* exported declarations of a file, `export` removed, in statement order (the "inlined" text) *)
-Definition exported_decls (m : module) : list decl :=
-  flat_map (fun s => match s with SDecl true (DImpl _) => [] | SDecl true d => [d] | _ => [] end) m.
-Definition inline_ops (fuel : nat) (fs : fsys) (m : module) : list op :=
-  flat_map local_decl_ops (exported_decls m) ++ flat_map local_impl_ops (parser_impls fuel fs m).
+(* ---------- the "inlined" reading: every (transitively) imported file is pasted once, where the loader
+   visits it, as local declarations: exported declarations with `export` removed, then the impl blocks *)
+Definition inline_stmt_ops (s : stmt) : list op :=
+  match s with
+  | SDecl true (DImpl _) => []
+  | SDecl true d => local_decl_ops d
+  | _ => []
+  end.
+Fixpoint inline_stmts (inl : tables -> name -> result) (l : module) (t : tables) : result :=
+  match l with
+  | [] => Ok t
+  | SImport q :: r => match inl t q with Ok t' => inline_stmts inl r t' | Err e => Err e end
+  | SDecl e d :: r =>
+      match run_ops (inline_stmt_ops (SDecl e d)) t with
+      | Ok t' => inline_stmts inl r t'
+      | Err e => Err e
+      end
+  end.
+Fixpoint handle_inline (fuel pf : nat) (fs : fsys) (t : tables) (module_path : name) {struct fuel} : result :=
+  if mem module_path (loaded t) then Ok t              (* a file is pasted once *)
+  else match fuel with
+       | 0 => Err (EDepth module_path)
+       | S f =>
+         match resolve fs module_path with
+         | None => Err (EOpen module_path (file_path_of module_path))
+         | Some m =>
+           match inline_stmts (handle_inline f pf fs) m (mark_loaded module_path t) with
+           | Ok t2 => run_ops (flat_map local_impl_ops (parser_impls pf fs m)) t2
+           | Err e => Err e
+           end
+         end
+       end.
